@@ -395,6 +395,123 @@ func craftedAEAD(g *hx.Gen, r *hx.Rand) {
 	}
 }
 
+// tamperPacket: the stream with packet t untouched, then with single bits flipped in packet t only — one in its
+// first cipher block, `inner` random ones behind the first block, one in each of the first two and last two bytes
+// of its MAC / tag, one in the last byte before the MAC.
+func tamperPacket(g *hx.Gen, r *hx.Rand, k keys, packets [][]byte, t, blk, tag, inner int, class string) {
+	stream := concat(packets)
+	n := len(packets) + 1
+	emit(g, k, n, stream, class)
+	base := 0
+	for _, p := range packets[:t] {
+		base += len(p)
+	}
+	plen := len(packets[t])
+	body := plen - tag
+	var pos []int
+	pos = append(pos, base+r.Intn(blk))
+	for i := 0; i < inner && body > blk; i++ {
+		pos = append(pos, base+blk+r.Intn(body-blk))
+	}
+	if body > 0 {
+		pos = append(pos, base+body-1)
+	}
+	for _, off := range []int{0, 1, tag - 2, tag - 1} {
+		if tag > 0 && off >= 0 && off < tag {
+			pos = append(pos, base+body+off)
+		}
+	}
+	for _, at := range pos {
+		s := clone(stream)
+		s[at] ^= 1 << uint(r.Intn(8))
+		emit(g, k, n, s, class+"-bitflip")
+	}
+}
+
+// bufferBoundary aims at the sizes where a reader's internal scratch buffers are first used to the brim, first
+// re-allocated, or reused after having grown:
+//   cbcCipher starts with packetData = make([]byte, 1024): packets whose encrypted part (4 + packet_length) is
+//   1024 ± {0, 1, 2} blocks, and packets whose total (encrypted part + MAC) is 1024 ± a block — as the FIRST packet
+//   of a fresh reader, after a small packet, and after the buffer has grown (a larger packet first);
+//   chacha20Poly1305Cipher starts with buf = make([]byte, 256): totals (4 + length + 16) around 256;
+//   streamPacketCipher / gcmCipher start empty and grow on demand: small → large → small and large → small → large.
+// Every stream is fed untampered (must be accepted) and with bits flipped inside the boundary packet.
+func bufferBoundary(g *hx.Gen, r *hx.Rand) {
+	for _, c := range cbcCiphers {
+		bs := 16
+		if c == "3des-cbc" {
+			bs = 8
+		}
+		ms := []string{"hmac-sha1", "hmac-sha1-96", hx.Pick(r, macs[:4])}
+		if g.Thorough() {
+			ms = macs
+		}
+		for _, m := range ms {
+			tag := macSizes[m]
+			encs := map[int]bool{}
+			for d := -2; d <= 2; d++ {
+				encs[1024+d*bs] = true
+			}
+			around := (1024 - tag) / bs * bs // encrypted part such that total = 1024 - (0..bs-1)
+			encs[around] = true
+			encs[around+bs] = true
+			encs[around-bs] = true
+			encs[2048] = true
+			encs[2048-bs] = true
+			for e := range encs {
+				n := e - 9 // 5 + n + 4 = e: padding 4, encrypted part exactly e (a multiple of the block size)
+				for pat := 0; pat < 4; pat++ {
+					var lens []int
+					t := 0
+					switch pat {
+					case 0: // first packet of a fresh reader
+						lens = []int{n}
+					case 1: // after a small packet (buffer still the initial one)
+						lens, t = []int{r.Range(1, 40), n}, 1
+					case 2: // after the buffer has grown
+						lens, t = []int{n + 3*bs + r.Intn(200), n}, 1
+					case 3: // twice in a row, then a small one
+						lens, t = []int{n, n, r.Range(1, 40)}, 1
+					}
+					k := newKeys(r, c, m)
+					packets, _ := validStream(r, k, lens)
+					tamperPacket(g, r, k, packets, t, bs, tag, 3, "cbc-buffer-1024")
+				}
+			}
+		}
+	}
+	// chacha20-poly1305: buf = make([]byte, 256); total = 4 + length + 16, length = 1 + n + pad ≡ 0 mod 8
+	for _, length := range []int{216, 224, 232, 236 - 4, 240, 248, 256, 264, 504, 512} {
+		n := length - 5
+		for pat := 0; pat < 3; pat++ {
+			lens, t := []int{n}, 0
+			if pat == 1 {
+				lens, t = []int{r.Range(1, 30), n}, 1
+			}
+			if pat == 2 {
+				lens, t = []int{n + 100, n}, 1
+			}
+			k := newKeys(r, "chacha20-poly1305@openssh.com", "-")
+			packets, _ := validStream(r, k, lens)
+			tamperPacket(g, r, k, packets, t, 4, 16, 2, "chacha-buffer-256")
+		}
+	}
+	// grow-on-demand readers: stream modes (incl. EtM and none) and GCM
+	grow := [][2]string{{"aes128-ctr", "hmac-sha2-256"}, {"aes192-ctr", "hmac-sha2-512-etm@openssh.com"}, {"arcfour256", "hmac-sha1-96"},
+		{"aes128-gcm@openssh.com", "-"}, {"aes256-gcm@openssh.com", "-"}, {"none", "-"}}
+	for _, pr := range grow {
+		for _, lens := range [][]int{{20, 900, 20}, {900, 20, 900}, {300, 301, 299}, {1, 2000, 1, 2000}} {
+			k := newKeys(r, pr[0], pr[1])
+			packets, _ := validStream(r, k, lens)
+			tag := macSizes[pr[1]]
+			if strings.Contains(pr[0], "gcm") {
+				tag = 16
+			}
+			tamperPacket(g, r, k, packets, len(lens)-1, 5, tag, 2, "grow-reuse-buffer")
+		}
+	}
+}
+
 func macFor(name string, key []byte) (hash.Hash, int) {
 	switch name {
 	case "hmac-sha2-512-etm@openssh.com", "hmac-sha2-512":
@@ -564,6 +681,7 @@ func gen(g *hx.Gen) {
 	pairs := allPairs()
 	craftedAEAD(g, r)
 	craftedCBC(g, r)
+	bufferBoundary(g, r)
 	// crafted headers: every CBC pair and one pair of every other family always, the rest rotating in the quick tier
 	for _, pr := range allPairs() {
 		always := strings.Contains(pr[0], "cbc") || pr[1] == "-" || (pr[0] == "aes128-ctr" && (pr[1] == "hmac-sha2-256" || pr[1] == "hmac-sha2-256-etm@openssh.com")) || pr[0] == "arcfour128" && pr[1] == "hmac-sha1"
@@ -615,7 +733,7 @@ func gen(g *hx.Gen) {
 		g.Stat("table.reader-error-arms=31/31")
 	}()
 	// fully random streams into every reader, and structured junk into `none`
-	nr := g.Count(2500, 200000)
+	nr := g.Count(2000, 200000)
 	for i := 0; i < nr; i++ {
 		pr := hx.Pick(r, pairs)
 		k := newKeys(r, pr[0], pr[1])
